@@ -554,6 +554,11 @@ impl Stream for SimStream {
                     log(Ev::StreamYield { aidx: this.aidx, id });
                     return Poll::Ready(Some(Item { id }));
                 }
+                Some(StreamItem::Forever(base)) => {
+                    this.script[0] = StreamItem::Forever(base + 1);
+                    log(Ev::StreamYield { aidx: this.aidx, id: base });
+                    return Poll::Ready(Some(Item { id: base }));
+                }
                 Some(StreamItem::Gate(g)) => {
                     let open = with_h(|h| {
                         let gate = h.gates.entry(g).or_insert(Gate { open: false, wakers: vec![] });
